@@ -1,6 +1,7 @@
 package main
 
 import (
+	"encoding/json"
 	"fmt"
 	"os"
 	"runtime/pprof"
@@ -41,6 +42,40 @@ func main() {
 			os.Exit(2)
 		}
 		os.Exit(runCheck(spec, tier))
+	case "replay":
+		// artsym replay <file.json>: run a recorded counterexample natively against /repo's working tree
+		b, err := os.ReadFile(os.Args[2])
+		if err != nil {
+			fmt.Fprintln(os.Stderr, err)
+			os.Exit(2)
+		}
+		var rf struct {
+			Property string      `json:"property"`
+			Harness  string      `json:"harness"`
+			Params   []int       `json:"params"`
+			Tape     []TapeEntry `json:"tape"`
+			Expect   struct {
+				Kind string `json:"kind"`
+				Tag  string `json:"tag"`
+			} `json:"expect"`
+		}
+		if err := json.Unmarshal(b, &rf); err != nil {
+			fmt.Fprintln(os.Stderr, err)
+			os.Exit(2)
+		}
+		rp := NewReplayer("manual")
+		res, err := rp.Run([]ReplayReq{{ID: 0, Harness: rf.Harness, Params: rf.Params, Tape: rf.Tape}}, "VERIF_STACK=1")
+		if err != nil {
+			fmt.Fprintln(os.Stderr, err)
+			os.Exit(2)
+		}
+		r := res[0]
+		fmt.Printf("native outcome: %s tag=%q %s\ntraces: %v\n", r.Outcome, r.Tag, r.Msg, r.Traces)
+		if r.Outcome != "ok" {
+			fmt.Printf("VIOLATION property=%s replay=%s\n", rf.Property, os.Args[2])
+			os.Exit(1)
+		}
+		os.Exit(0)
 	case "run":
 		// artsym run <harness> [params...]
 		eng, err := LoadEngine("")
